@@ -189,6 +189,8 @@ def run_case(case):
                             return spec[1]
                         if spec[0] == "f":
                             return futs[spec[1]]
+                        if spec[0] == "t":
+                            return tuple(build(x) for x in spec[1])
                         return [build(x) for x in spec[1]]
                     if "argspec" in c:
                         args = [build(x) for x in c["argspec"]]
